@@ -345,6 +345,25 @@ def one_case(rng, rep=None):
             t = io.target[s]
             assert (t.path.root, t.path.suffix, t.path.destdir) == (h.path.root, h.path.suffix, False), (t, h)
     implicit = add_res[0] == 'ok' and len(add_res[1]) > len(chosen)
+    # direct oracle on the implementation (independent of the model): the installed set is the closure of the
+    # explicit items under install_deps, and every destination is a destdir path that ends in the file's suffix
+    if add_res[0] == 'ok' and rep is not None:
+        want, todo = [], [m for item, _ in chosen for m in item.all]
+        while todo:
+            f = todo.pop()
+            if not any(f is w or f == w for w in want):
+                want.append(f)
+                for d in f.install_deps:
+                    todo.extend(d.all)
+        got = list(io.host)
+        if len(got) != len(want) or any(not any(g == w for w in want) for g in got):
+            rep.fail('installed set %r is not the closure of the explicit items under install_deps %r' % (got, want),
+                     {'calls': calls_enc, 'installed': repr(got), 'closure': repr(want)})
+        for s_, h in io.host.items():
+            tail = '' if isinstance(s_, __import__('bfg9000').file_types.Directory) else s_.path.basename()
+            if not h.path.destdir or not h.path.suffix.endswith(tail) or h.path.root == Root.srcdir or h.path.root == Root.builddir:
+                rep.fail('destination %r of %r is not a DESTDIR path under an install root ending in the file name' % (h.path, s_),
+                         {'calls': calls_enc})
     return calls_enc, add_res, plan_res, env, implicit
 
 
@@ -755,6 +774,44 @@ def system_project(rep, rng, idx):
     return bad
 
 
+def stage_directories(rep, rng):
+    """Installed plain directories (directory(..., include=...)): files-only patterns must install and uninstall
+    cleanly; a pattern that also matches sub-directories (known finding) makes uninstall run rm -f on directories."""
+    bad = 0
+    for pattern, with_dirs in (('**/*.txt', False), ('**', True), ('*', True)):
+        with project.Scratch('c15d') as s:
+            sub = rng.choice(['sub', 's u b'])
+            files = {'data/a.txt': 'a\n', 'data/%s/b.txt' % sub: 'b\n',
+                     'build.bfg': "project('demo', version='1.0')\nd = directory('data', include=%r)\n"
+                                  "install(d, directory=Path('demo dir', InstallRoot.datadir))\n" % pattern}
+            project.write_tree(s.src, files)
+            sysroot = os.path.join(s.root, 'sys root')
+            dest = os.path.join(s.root, 'de st')
+            rc, out = project.configure(s.src, s.build, 'make', ['--prefix=' + sysroot])
+            replay = {'build.bfg': files['build.bfg'], 'pattern': pattern}
+            rep.case('dir:' + pattern, True)
+            rep.count('directory-pattern:' + pattern)
+            if rc != 0:
+                bad += bool(rep.fail('configure failed for an installed directory (%s)' % pattern, dict(replay, output=out[-800:])))
+                continue
+            rc, out = run_make(s.build, ['install', 'DESTDIR=' + dest])
+            top = dest + sysroot + '/share/demo dir'
+            got = sorted(tree_files(top)) if os.path.exists(top) else None
+            want = ['a.txt', sub + '/b.txt'] if pattern != '*' else ['a.txt']
+            if rc != 0 or got != want or sorted(tree_files(dest)) != sorted('/'.join([sysroot[1:], 'share/demo dir', w]) for w in want):
+                bad += bool(rep.fail('install of directory(data, include=%r): rc=%d, tree %r, expected %r' % (pattern, rc, got, want),
+                                     dict(replay, output=out[-800:])))
+                continue
+            rc, out = run_make(s.build, ['uninstall', 'DESTDIR=' + dest])
+            left = sorted(tree_files(dest))
+            if rc != 0 or left:
+                cls = ('uninstall-rm-on-directory',) if (with_dirs and not left and 'Is a directory' in out) else ()
+                bad += bool(rep.fail('make uninstall of directory(data, include=%r) exits with %d, files left %r: %s' % (
+                    pattern, rc, left, out.strip().split('\n')[-2:]), dict(replay, output=out[-800:]), classes=cls))
+    rep.stage('system:installed directories', patterns=3, failures=bad)
+    return bad
+
+
 def stage_system(rep, rng, n):
     bad = 0
     for i in range(n):
@@ -766,9 +823,15 @@ def stage_system(rep, rng, n):
 def run(rep):
     rng = random.Random(rep.seed)
     thorough = rep.tier == 'thorough'
+    # findings recorded for this property but not yet merged into known_findings.json by the coordinator
+    fd = os.path.join(common.VERIF, 'findings.d', 'C15.json')
+    if os.path.exists(fd):
+        have = {k['id'] for k in rep.known}
+        rep.known += [k for k in json.load(open(fd)) if k.get('status') == 'open' and k['id'] not in have]
     rep.proof_stage(coqchk=thorough)
     dis = stage_w(rep, rng, 3000 if thorough else 500)
     found = stage_system(rep, rng, 15 if thorough else 2)
+    found += stage_directories(rep, rng)
     if dis and not found:
         i, call, iv, mv = dis[0]
         rep.fail('W:%s - model and implementation disagree (%d cases), e.g. %r: impl %r, model %r' % (
